@@ -6,7 +6,9 @@ E1  TLC, exhaustive, on spec/future/Future.tla + WhenAll.tla: ThenAfterReady (th
     WhenAllReady (result ready => all inputs ready), WhenAnyReady (result = index of a ready input, SIZE_MAX for the
     empty input), CombFOnce, TsWaitImpliesReady (taskSet.wait() returned => the futures bound to the set are ready)
     for ALL orders of {push link, antecedent completes, drain}, registration racing completion, the result functor run
-    by the last callback or inline by a getter, empty and singleton inputs.
+    by the last callback or inline by a getter, empty and singleton inputs; every task-set overload of when_all
+    (TaskSet / ConcurrentTaskSet x iterator / variadic) and when_any with inputs that are NOT members of the set (manual
+    queue) and with inputs that are (abstract pool, a later continuation in front of the when_all callback).
 E2  every transition of the then() cover graph is replayed in the real code under the controlled scheduler ...
 E3  ... and validated step by step by TLC (FutureTrace.tla: chain contents, count / winner / shared_ptr owners).
 E5  rounds of 20 000 then() on a not-yet-ready future: the 32-byte small-buffer pool must not grow after the first round
@@ -38,6 +40,10 @@ def run(ctx):
                    ('wany', 'when_any of two inputs racing their completion'),
                    ('wallt', 'when_all(f1, f2): the variadic (tuple) overload'),
                    ('wanyt', 'when_any(f1, f2): the variadic (tuple) overload')]
+    models.append(('g19ts', 'task-set overloads of when_all (TaskSet, ConcurrentTaskSet; iterator, variadic), inputs outside / '
+                            'inside the set: taskSet.wait() returned => the result is ready'))
+    if thorough:
+        models.append(('g19ts2', 'task-set overload of when_any; variadic when_all of two members of a ConcurrentTaskSet'))
     for name, label in models:
         fc.model(ctx, name, WHAT, label, fixed=fixed, timeout=2400)
 
@@ -45,6 +51,10 @@ def run(ctx):
     rng = random.Random(ctx.seed * 31 + 5)
     fixedprogs = [fc.gen.MC[k] for k in ('then', 'then2', 'exc', 'wall', 'wall1', 'wany', 'wany1', 'wall0', 'wallt', 'wanyt',
                                          'wany1', 'wany1', 'wany')]     # (repeated: more schedules of the narrow when_any race)
+    # the task-set overloads of when_all (TaskSet / ConcurrentTaskSet x iterator / variadic) + when_any, inputs OUTSIDE the
+    # set (manual queue) and INSIDE it (real pool), is_ready() sampled right after taskSet.wait() returned: the random
+    # programs reach these overloads only now and then and never look at the result after the wait
+    fixedprogs += [fc.gen.MC[k] for k in fc.gen.TS_PROGS]
     nq, npool = (200, 200) if thorough else (6, 6)
     progs_q = [fc.gen.random_program(rng, 'q') for _ in range(nq)]
     progs_p = [fc.gen.random_program(rng, 'pool') for _ in range(npool)]
@@ -53,8 +63,9 @@ def run(ctx):
         fc.run_and_validate(ctx, exe, fixedprogs, WHAT, 'model programs, random schedules', n=150, seed=ctx.seed + 20, pct=3,
                             spurious=True, fixed=fixed)
     tr = fc.run_and_validate(ctx, exe, progs_p + fixedprogs + progs_q, WHAT,
-                             'model programs + random programs: real ThreadPool TaskSet NewThreadInvoker | manual queue '
-                             'ImmediateInvoker', n=10 if thorough else 4, seed=ctx.seed + 12, pct=3, spurious=True, fixed=fixed)[0]
+                             'model programs + task-set when_all programs + random programs: real ThreadPool TaskSet '
+                             'NewThreadInvoker | manual queue ImmediateInvoker', n=10 if thorough else 4, seed=ctx.seed + 12, pct=3,
+                             spurious=True, fixed=fixed)[0]
     if tr:
         ctx.sample_trace(tr, 10, skip=40)
 
